@@ -233,6 +233,12 @@ class GraphvizMonitor(Monitor):
                     continue
                 labelled = True
                 text = unquote(store[name])
+                if isinstance(cb, Recorder) and cb.literal and store[name][0] != 'str':
+                    # the callback returned graphviz.nohtml(...): the DOT must carry it as quoted text,
+                    # an unquoted <...> value is HTML-like markup, i.e. not the text that was produced
+                    COL.violation('graphviz', f'graphviz:{key}-literal-text-emitted-as-markup', f'"{text}"', text,
+                                  {'node': name})
+                    continue
                 if isinstance(cb, Recorder):
                     COL.count('label_texts_checked')
                     given = cb.calls.get(text)
